@@ -32,20 +32,20 @@ def main():
         meta['confirm'] = {'demo_clean_rc': rc0, 'patch_applies': rca == 0, 'demo_patched_rc': rc1,
                            'demo_patched_output': o1[-600:], 'tests_with_patch': ot.strip()[-200:]}
         print('confirm:', meta['confirm']['demo_clean_rc'], meta['confirm']['demo_patched_rc'], meta['confirm']['tests_with_patch'])
-    rc, o = sh('git status --short', '/repo')
-    if o.strip():
-        print('REPO NOT CLEAN, abort'); return 2
-    rc, o = sh('git apply %s' % patch, '/repo')
+    # run the registered checks against the patched scratch worktree (VERIF_REPO), so that /repo itself —
+    # which concurrently running checks import — is never modified
+    rc, o = sh('git apply %s' % patch, wt)
     if rc != 0:
-        print('patch does not apply to /repo:', o); return 2
+        print('patch does not apply:', o); return 2
+    env2 = dict(os.environ, VERIF_REPO=wt)
     try:
         for p in props:
-            rc, o = sh('./vcheck run %s' % p, '/verif')
+            rc, o = sh('./vcheck run %s' % p, '/verif', env2)
             lines = [l for l in o.splitlines() if l.startswith(('VIOLATION', 'KNOWN-FINDING', 'MACHINERY', p))]
             print(p, 'rc=%d' % rc, ' | '.join(lines)[:400])
             meta['ran'].append({'check': p, 'exit': rc, 'lines': lines})
     finally:
-        sh('git checkout -- .', '/repo')
+        sh('git checkout -- .', wt)
     dst = '/verif/seeded/%s_%s' % (sid, idx)
     os.makedirs(dst, exist_ok=True)
     shutil.copy(patch, dst + '/patch.diff')
@@ -54,11 +54,6 @@ def main():
         meta['needs'] = open(note).read()
     meta['property'] = sid[:3]
     json.dump(meta, open(dst + '/meta.json', 'w'), indent=1)
-    # the clean tree must be quiet again
-    for p in props:
-        rc, o = sh('./vcheck run %s' % p, '/verif')
-        if rc != 0:
-            print('WARNING: check %s not quiet on clean tree after undo: rc=%d' % (p, rc))
     return 0
 
 sys.exit(main())
